@@ -82,7 +82,8 @@ pub fn generate(ctx: &mut GenCtx) {
             ctx.stats.bump(&format!("size.{}", sz));
         }
         if ctx.thorough {
-            for sz in [200_000usize.min(cap), 1_000_000usize.min(cap)] {
+            let (a, b) = (200_000usize.min(cap), 1_000_000usize.min(cap));
+            for sz in if a == b { vec![a] } else { vec![a, b] } {
                 ctx.emit(&format!("run {} {} release", site, sz));
                 ctx.stats.bump("profile.release");
             }
